@@ -33,6 +33,9 @@ DOMAINS = ["b.c", "example.com", "localhost", "a-b.com", "-a.com", "a-.com", "a.
            "bücher.de", "例え.jp", "xn--bcher-kva.de", "a＠b.com", "a＜b.com", "a。com", "a．com", "a　b.com", "a​b.com", "a­b.com",
            "a\u0085b.com", "a\rb.com", "a\nb.com", "a b.com", "a\tb.com", "a<b.com", "a>b.com", "a!b.com", "b!c.com", "a_b.com", "😀.com",
            "x" * 63 + ".com", "x" * 64 + ".com", ("x" * 60 + ".") * 4 + "com", ("x" * 62 + ".") * 4 + "xx", "", "é" * 31 + ".fr", "é" * 32 + ".fr",
+           # the overall length limit of a domain with every label within 63 octets (round 7: C16/m20): 253, 254, 255, 256 octets
+           ".".join(["x" * 63] * 3 + ["y" * 61]), ".".join(["x" * 63] * 3 + ["y" * 62]), ".".join(["x" * 63] * 4), ".".join(["x" * 63] * 4) + "z",
+           ".".join(["ab1"] * 64), ".".join(["ab1"] * 63) + ".yz",
            "A.B", "a.b.", "1", "a@b.c", "[1.1.1.1]x", "x[1.1.1.1]", "[IPv6:1::]", "[ipv6:::1]", "999.1.1.1", "[999.1.1.1]",
            "[IPv6:IPv6:::1]", "[IPv6:IPv6:2001:db8::1]", "[IPv6:]", "[IPv6:IPv6:]", "[192.0.2.1", "[192.0.2.1]]", "[[192.0.2.1]", "[[192.0.2.1]]", "[IPv6:::1]]", "[::1]]"]
 
@@ -76,6 +79,14 @@ def gen(tier, rng):
         cases.append(f"envelope\t{hexs(f) if f != '-' else '-'}\t{hexlist([t.encode() for t in to])}")
         if to:
             cases.append(f"mailcmd\t{hexs(f) if f != '-' else '-'}\t{hexs(to[0])}")
+    # envelopes derived from a header map / by the message builder when a recipient field is absent, present but empty, or a list
+    # (round 7: C16/m19 checked the presence of a header instead of the presence of a recipient)
+    for f in ("a@b.c", "-"):
+        for to in ("x", "-", "one", "two"):
+            for cc in ("x", "-", "one"):
+                for bcc in ("x", "-", "one"):
+                    fld = {"x": "x", "-": "-", "one": hexlist([b"r1@x.y"]), "two": hexlist([b"r1@x.y", b"r2@x.y"])}
+                    cases.append(f"envhdrs\t{hexs(f) if f != '-' else '-'}\t{fld[to]}\t{fld[cc]}\t{fld[bcc]}")
     # envelopes that do not come from Envelope::new: JSON with keys missing, null, empty, of the wrong type, repeated
     import json as _json
     fwd = ['[]', '["a@b.c"]', '["a@b.c","x@y.z"]', 'null', '""', '"a@b.c"', '[null]', '{}', '[[]]', '["not an address"]']
